@@ -10,7 +10,8 @@ CORR_ONLY = ["the empirical law of every sampler (KS / chi-square / moment tests
              "Sample_Gauss value: Quantile_Gauss of the predicted uniform, compared against scipy's normal quantile within the 1e-4 root accuracy of Inv_Erf",
              "Metropolis Gaussian proposals are taken from the implementation's recorded PDF arguments (the model replays decisions, bookkeeping and draws)"]
 ASSUMPTIONS = ["std::mt19937 / generate_canonical<double,53> / uniform_real_distribution as in libstdc++ 12 (re-validated every run against the real generator: c18.mt, c18.canon)",
-               "exp multiplicative, positive and >= 1 on non-negative arguments (poisson_knuth)",
+               "exp x = exp STEP * exp(x - STEP) for STEP < x <= mean and exp >= 1 on (0, mean] (poisson_knuth, every mean incl. several rescalings); "
+               "no exact tie p == 1 at the exit test while lambda_left > 0 (poisson_tie_witness: there the code stops although Knuth's rule has not fired)",
                "thinning >= 1 and burn_in + thinning*sample < 2^32 (metropolis_count)"]
 TRUSTED = ["scipy.stats distribution functions as reference laws", "driver-side expApprox (Taylor + squaring, 2^-200) as numerical oracle for the Poisson decisions"]
 
